@@ -144,8 +144,78 @@ def plan_c17(tier, seed):
             "explanation": "exhaustive enumeration of the input space of the prefix algebra against a bit-by-bit reference (not a state-space search: the algebra is stateless)"}
 
 
+def run_sched(tier, seed, wdir):
+    """[E4] shuttle DFS over all interleavings of workers on disjoint mutable views (python side: build + fan out)"""
+    import subprocess, time
+    t0 = time.time()
+    env = dict(os.environ, CARGO_NET_OFFLINE="true", CARGO_TARGET_DIR=os.path.join(ROOT, "target"))
+    r = subprocess.run(["cargo", "build", "--release", "--offline"], cwd=os.path.join(ROOT, "sched"), env=env, stdout=subprocess.PIPE, stderr=subprocess.STDOUT, text=True)
+    if r.returncode != 0:
+        return {"engine": "sched", "machinery_error": "the schedule explorer does not build: " + r.stdout[-1500:], "found": []}
+    vs = os.path.join(ROOT, "target", "release", "vs")
+    sdir = os.path.join(wdir, "sched")
+    os.makedirs(sdir, exist_ok=True)
+    configs = [("u8", "U2", "hi", False)]
+    if tier == "thorough":
+        configs += [("u32", "U2", "lo", False), ("Ipv6Net", "U2", "hi", False), ("u8", "U2", "hi", True)]
+    procs = []
+    n = 16
+    for ci, (t, u, e, full) in enumerate(configs):
+        for i in range(n):
+            spec = {"engine": "sched", "ptype": t, "universe": u, "embed": e, "a_mod": n, "a_rem": i, "full": full, "yield_on_reads": False,
+                    "max_schedules": 300000, "sched_dir": os.path.join(sdir, f"persist_{ci}_{i}")}
+            sp, op = os.path.join(sdir, f"spec_{ci}_{i}.json"), os.path.join(sdir, f"out_{ci}_{i}.json")
+            json.dump(spec, open(sp, "w"))
+            if os.path.exists(op):
+                os.remove(op)
+            procs.append((subprocess.Popen([vs, "run", sp, op], env=env, stdout=subprocess.DEVNULL, stderr=subprocess.DEVNULL), op))
+            if len([p for p, _ in procs if p.poll() is None]) >= 16:
+                for p, _ in procs:
+                    if p.poll() is None:
+                        p.wait()
+                        break
+    outs = []
+    for p, op in procs:
+        p.wait()
+        if p.returncode != 0 or not os.path.exists(op):
+            return {"engine": "sched", "machinery_error": f"schedule explorer exited with {p.returncode}", "found": []}
+        outs.append(json.load(open(op)))
+    merged = {"engine": "sched", "run": f"shuttle DFS: workers on disjoint mutable views, {len(configs)} configuration(s) x {n} slices", "spec": outs[0]["spec"],
+              "states": sum(o["states"] for o in outs[::n]), "shape_states": sum(o["shape_states"] for o in outs[::n]), "transitions": sum(o["transitions"] for o in outs[::n]),
+              "harnesses": sum(o["harnesses"] for o in outs), "schedules": sum(o["schedules"] for o in outs), "evaluations": sum(o["schedules"] for o in outs),
+              "distinct_outcomes": sum(o["harnesses"] for o in outs), "capped_harnesses": sum(o["capped_harnesses"] for o in outs),
+              "max_node_accesses_per_schedule": max(o["max_node_accesses_per_schedule"] for o in outs),
+              "exhaustive": all(o["exhaustive"] for o in outs), "cap_hit": next((o["cap_hit"] for o in outs if o.get("cap_hit")), None),
+              "wall_s": time.time() - t0, "samples": [s_ for o in outs for s_ in o.get("samples", [])][:2], "found": []}
+    seen = set()
+    for o in outs:
+        for f in o.get("found", []):
+            if (f["site"], f["cond"]) not in seen:
+                seen.add((f["site"], f["cond"]))
+                f["run_spec"] = o["spec"]
+                merged["found"].append(f)
+    return merged
+
+
+def run_programs(tier, seed, wdir):
+    import programs
+    return programs.run(tier, seed, wdir)
+
+
+def plan_c14(tier, seed):
+    types = REP7 if tier == "quick" else ALL
+    runs = grid(["map"], types, ["U2"], ["hi", "lo"], "full", ["split_hold"])
+    runs += [{"engine": "selfpairs", "ptype": t, "universe": "U2", "embed": e, "threads": 2} for t in types for e in ("hi", "lo")]
+    runs += [pr("u8", "U2", "hi", "whole", "structural", "structural", threads=8), pr("u8", "U2", "hi", "all", "canonical", "canonical", threads=4)]
+    return {"runs": runs, "py_engines": [run_programs, run_sched], "jobs": 8,
+            "rule": "three clauses: (1) addresses of all simultaneously live mutable references, exhaustively over states / pairs of states; (2) shuttle DFS over every interleaving of workers that mutate "
+                    "pairwise disjoint views (scheduling point at every arena node write, footprints logged at every access); (3) a bounded grammar of client programs with rustc as oracle. "
+                    "distinct = shapes + harnesses + programs rejected as required"}
+
+
 PLANS = {
     "C01": plan_c01,
+    "C14": plan_c14,
     "C17": plan_c17,
     "C13": plan_c13,
     "C16": e1_plan(["churn"], [], alpha="full"),
@@ -265,5 +335,5 @@ def write_evidence(prop, tier, seed, plan, runs, wall, violations=0, build_s=0.0
 
 
 def replay_program(path):
-    print("MACHINERY-ERROR program replay not available")
-    return 2
+    import programs
+    return programs.replay(path)
